@@ -126,7 +126,7 @@ def iradon_torch(
 
     f_filter = get_fourier_filter_torch(padded_size, filter_name, device=device)  # [1, padded]
     spectrum = torch.fft.fft(sinograms_padded, dim=2)
-    filtered = torch.real(torch.fft.ifft(spectrum * f_filter, dim=2))[:, :, :N]
+    filtered = torch.real(torch.fft.ifft(spectrum * f_filter, dim=2))[:, :, : N + 1]
 
     # Backprojection
     recon = torch.zeros((B, output_size, output_size), device=device)
@@ -144,7 +144,7 @@ def iradon_torch(
         t = (x * torch.cos(angle) - y * torch.sin(angle)).reshape(1, output_size, output_size)
         t_idx = t + (N // 2)
 
-        t0 = torch.floor(t_idx).long().clamp(0, N - 2)  # [1, H, W]
+        t0 = torch.floor(t_idx).long().clamp(0, N - 1)  # [1, H, W]
         t1 = t0 + 1
         w = t_idx - t0.float()
 
